@@ -16,7 +16,7 @@ CASE_TIMEOUT = 0.2
 RULE = ("case = a history of control settings (altscreen, cursorvis, cursorblink, mouse, cursorshape, keypad_app; any "
         "order, repeated, redundant; boolean controls with truthy values 2, 4, 256, -1 as well as 0/1), control reads, set-pen / change-pen, pause / resume cycles, ending in teardown "
         "and/or destruction -- directly on an xterm TickitTerm (T) or through a toplevel Tickit instance whose first tick "
-        "runs setupterm (U), optionally with the application holding its own reference on the root window or the terminal across the final tickit_unref.  The bytes of every operation are compared with the model's and run through the extracted "
+        "runs setupterm (U; W = the same with a terminal in the loop whose replies to the start-up queries arrive on the input fd after 0, 1, 2 reads or never), optionally with the application holding its own reference on the root window or the terminal across the final tickit_unref.  The bytes of every operation are compared with the model's and run through the extracted "
         "VT: after pause / teardown / destruction the modes of the property's list and the rendition are the initial ones, "
         "after resume (and after every setting while running) they are the logical ones, the rendition is the logical "
         "pen, and every read returns the last value set.  Non-trivial = at least one operation wrote bytes; distinct = "
@@ -98,6 +98,25 @@ def _gen(tier, seed, info):
                 for tail in ("D", "D x", "D g:A g:M x"):
                     yield emit("held_refs", ("U %d 0 0 %s %s %s" % (alt, hold, mid, tail)).replace("  ", " "))
                 yield emit("held_refs", ("U %d 1 1 %s %s x D" % (alt, mid, hold)).replace("  ", " "))
+    # 4c. a terminal in the loop that answers the start-up queries on the input fd: every subset of the four
+    #     replies, delays 0..2 reads (0 = read by setupterm's await, k = read at the k-th later tick)
+    wn = 0
+    for alt in (0, 1):
+        for tail in ("g:V g:B g:H D", "t g:V t g:V Z R g:V D", "V:1 t t g:V V:0 t g:V D", "B:1 H:3 t t g:B g:H T D",
+                     "w t Z t R D x"):
+            yield emit("responding_terminal", "W %d 0 0 0 0 0 0 %s" % (alt, tail))     # all at once: no waiting
+    delays = [-1, 0, 1, 2]
+    for d69 in (0, 2):
+        for d25 in delays:
+            for d12 in delays:
+                for dsc in delays:
+                    if (d69, d25, d12, dsc) == (0, 0, 0, 0):
+                        continue
+                    wn += 1
+                    if quick and wn % 3 != seed % 3:
+                        continue          # each of these waits 50 ms in await_started
+                    yield emit("responding_terminal", "W %d 0 %d %d %d %d %d g:V g:B g:H t g:V g:B g:H B:0 t H:2 t g:V g:B g:H Z R D"
+                               % (wn % 2, wn % 2, d69, d25, d12, dsc))
     info["exhaustive"] = True
     info["exhaustive_scope"] = ("every control x every ordered pair of its values with read-back, pause/resume and teardown, "
                                 "for five probed start states; all 2-setting histories over altscreen/cursorvis/mouse/keypad "
@@ -142,7 +161,7 @@ def _gen(tier, seed, info):
 
 def _ops(case):
     t = case.split()
-    return t[0], (t[5:] if t[0] == "T" else t[4:])
+    return t[0], (t[5:] if t[0] == "T" else t[8:] if t[0] == "W" else t[4:])
 
 
 def classify(case, obs):
@@ -151,7 +170,7 @@ def classify(case, obs):
         return None
     layer, ops = _ops(case)
     t = case.split()
-    head = tuple(t[:5] if layer == "T" else t[:4])
+    head = tuple(t[:5] if layer == "T" else t[:8] if layer == "W" else t[:4])
     return (head, tuple(op if op[0] not in "sc" else op[0] for op in ops[:8]))
 
 
@@ -159,7 +178,7 @@ def sets_keypad_on(case):
     """trigger class of the known finding: the history switches the application keypad on
     (every toplevel history does: setupterm sets KEYPAD_APP)"""
     layer, ops = _ops(case)
-    return layer == "U" or any(op.startswith("K:") and op != "K:0" for op in ops)
+    return layer in ("U", "W") or any(op.startswith("K:") and op != "K:0" for op in ops)
 
 
 _co = None
@@ -190,7 +209,7 @@ def explain(case, obs, findings):
 
 def shrink(case):
     t = case.split()
-    n = 5 if t[0] == "T" else 4
+    n = 5 if t[0] == "T" else 8 if t[0] == "W" else 4
     head, ops = t[:n], t[n:]
     for i in range(len(ops)):
         yield " ".join(head + ops[:i] + ops[i + 1:])
